@@ -44,7 +44,30 @@ let fields s = List.filter (fun x -> x <> "") (String.split_on_char ' ' (String.
 (* model switches derived from the source by checks/C09.py: modelrun <fresh_exempt 0|1> <poll_freed 0|1> *)
 let rc = ref { rc_fresh_exempt = true; rc_poll_freed = true }
 
+(* modelrun transfer: one line per case `lex|off ; idx:off idx:off ... ; bidx:boff` (the persisted ids in load order, the
+   boundary waofLock) -> the ids Transfer.send_files delivers, same format *)
+let int_of_n n = int_of_string ("0x" ^ hex_of_n n)
+let id_of_tok t = match String.split_on_char ':' t with
+  | [i; o] -> { xidx = ni i; xoff = ni o; xtime = N0 }
+  | _ -> failwith ("bad id " ^ t)
+let transfer_main () =
+  try
+    while true do
+      let line = String.trim (input_line stdin) in
+      if line <> "" then begin
+        match String.split_on_char ';' line with
+        | [v; ids; b] ->
+          let v = if String.trim v = "lex" then CmpLex else CmpOffOnly in
+          let l = List.mapi (fun k t -> { rid_of = id_of_tok t; rpay = n_of_int k }) (fields ids) in
+          let sent = send_files v l (id_of_tok (String.trim b)) in
+          print_endline (String.concat " " (List.map (fun r -> Printf.sprintf "%d:%d" (int_of_n r.rid_of.xidx) (int_of_n r.rid_of.xoff)) sent))
+        | _ -> failwith ("bad transfer case " ^ line)
+      end
+    done
+  with End_of_file -> ()
+
 let () =
+  if Array.length Sys.argv >= 2 && Sys.argv.(1) = "transfer" then (transfer_main (); exit 0);
   if Array.length Sys.argv >= 3 then
     rc := { rc_fresh_exempt = (Sys.argv.(1) = "1"); rc_poll_freed = (Sys.argv.(2) = "1") };
   try
